@@ -11,6 +11,7 @@ import (
 	_ "verifharness/mon/c10"
 	_ "verifharness/mon/c11"
 	_ "verifharness/mon/c12"
+	_ "verifharness/mon/c13"
 	_ "verifharness/mon/c14"
 	_ "verifharness/mon/c15"
 	_ "verifharness/mon/c16"
